@@ -212,7 +212,9 @@ func receiverMembershipIsCurrentEpoch(p *core.Prog, r *core.Report, h *core.Rule
 		}
 		found = true
 		cur := core.CallSites([]*ssa.Function{f}, func(s core.Site) bool { return s.Name == plT+".ForEachContainerNodePublicKey" })
-		two := core.CallSites([]*ssa.Function{f}, func(s core.Site) bool { return strings.HasSuffix(s.Name, ".ForEachContainerNodePublicKeyInLastTwoEpochs") })
+		two := core.CallSites([]*ssa.Function{f}, func(s core.Site) bool {
+			return strings.HasSuffix(s.Name, ".ForEachContainerNodePublicKeyInLastTwoEpochs")
+		})
 		ok := len(cur) == 1 && len(two) == 0
 		if ok {
 			a := cur[0].Call.Common().Args
